@@ -198,7 +198,83 @@ def run(ctx: Ctx, env):
                 ctx.check(dunder not in ci.methods, "R5.truthiness-safe", f"{ci.name}.{dunder}",
                           f"{ci.name} defines {dunder}: `if not lexer` style tests in AliasRewriter can discard a supplied instance",
                           ci.module.loc(ci.methods[dunder]) if dunder in ci.methods else "")
+    _check_supplied_left_as_found(ctx, env)
     ctx.trust("SLY 0.4 Lexer.tokenize / Parser.parse / Parser.restart as installed (shape re-verified on each run)")
+
+
+def _check_supplied_left_as_found(ctx: Ctx, env):
+    """R7: the constructor of AliasRewriter, evaluated on every path, writes nothing on the lexer/parser it was handed - or
+    undoes the write in a `finally` that covers everything after it, so that an alias that fails to parse cannot leave the
+    caller's instance behaving differently from a fresh one."""
+    repo = env.repo
+    RW = "odata_query.rewrite.AliasRewriter"
+    if RW not in repo.classes:
+        raise AnalysisError("odata_query.rewrite.AliasRewriter not found")
+    r = repo.lookup_method(RW, "__init__")
+    if r is None:
+        raise AnalysisError("AliasRewriter.__init__ not found")
+    ci, fn = r
+    params = [a.arg for a in fn.args.args[1:]]
+    supplied = [p for p in params if p in ("lexer", "parser")]
+    if len(supplied) != 2:
+        raise AnalysisError(f"AliasRewriter.__init__ no longer takes lexer and parser (parameters: {params})", ci.module.loc(fn))
+    from ..values import ObjV, Sym
+    interp = env.interp()
+    paths = interp.explore(lambda it: (ci.module, fn, [ObjV(RW, {}, "self")] + [Sym("param", p) for p in params], {}, ci.qual))
+    ctx.floor("AliasRewriter.__init__ paths", len(paths), 2)
+    writes = {}
+    for x in paths:
+        for ev in x.events:
+            if ev.kind in ("store_foreign", "mutate") and any(f"param('{p}')" in str(ev.data.get("target", "")) for p in supplied):
+                writes.setdefault(ev.where, ev)
+    # statements of the constructor, with the try/finally blocks that protect them
+    protected = {}  # line -> attrs undone by a finally whose try body contains (or directly follows) the line
+
+    def attrs_written(stmts):
+        out = set()
+        for st in stmts:
+            for n in ast.walk(st):
+                if isinstance(n, ast.Attribute) and isinstance(n.ctx, (ast.Store, ast.Del)):
+                    out.add(n.attr)
+                if isinstance(n, ast.Call) and isinstance(n.func, ast.Name) and n.func.id in ("setattr", "delattr") and len(n.args) >= 2 \
+                        and isinstance(n.args[1], ast.Constant):
+                    out.add(n.args[1].value)
+        return out
+
+    def walk_block(stmts):
+        for i, st in enumerate(stmts):
+            if isinstance(st, ast.Try) and st.finalbody:
+                undone = attrs_written(st.finalbody)
+                covered = list(st.body)
+                if i > 0 and not any(isinstance(n, ast.Call) for n in ast.walk(stmts[i - 1]) if not (isinstance(n, ast.Call) and isinstance(n.func, ast.Name)
+                                                                                                 and n.func.id in ("setattr", "getattr"))):
+                    covered.append(stmts[i - 1])  # `x.a = v` directly before `try:` - nothing can fail in between
+                for c in covered:
+                    for n in ast.walk(c):
+                        if hasattr(n, "lineno"):
+                            protected.setdefault(n.lineno, set()).update(undone)
+                for n in (y for f in st.finalbody for y in ast.walk(f)):
+                    if hasattr(n, "lineno"):
+                        protected.setdefault(n.lineno, set()).update(undone)
+            for name in ("body", "orelse", "finalbody"):
+                sub = getattr(st, name, None)
+                if isinstance(sub, list) and sub and isinstance(sub[0], ast.stmt):
+                    walk_block(sub)
+            for h in getattr(st, "handlers", []) or []:
+                walk_block(h.body)
+
+    walk_block(fn.body)
+    for where, ev in sorted(writes.items()):
+        line = int(where.rsplit(":", 1)[-1]) if ":" in where else -1
+        attr = ev.data.get("attr")
+        undone = protected.get(line, set())
+        okay = (attr in undone) if attr else bool(undone)
+        ctx.check(okay, "R7.supplied-instances-left-as-found", f"__init__|{ev.data.get('target')}|{attr or ev.data.get('op')}",
+                  f"the constructor writes `{attr or ev.data.get('op')}` on the {ev.data.get('target')} it was handed and no `finally` undoes it: if an alias fails "
+                  "to parse, the caller's instance keeps the change and no longer behaves like a fresh one", where,
+                  "AliasRewriter({'a': 'author/'}, parser=p) raises; then p.parse(...) differs from a fresh parser")
+    if not writes:
+        ctx.ok("R7.supplied-instances-left-as-found", "__init__", f"{len(paths)} paths: no write on the supplied lexer/parser")
 
 
 def _functions(m):
